@@ -240,7 +240,7 @@ def components(n, edges):
     return len({find(i) for i in range(n)})
 
 
-def evaluate(case):
+def evaluate_inner(case):
     res = Result()
     built = Built()
     nontrivial = []
@@ -333,3 +333,15 @@ def sweeps(tier):
         out.append(('all digraphs on 5 nodes x 3 hash-key patterns', 64,
                     lambda k: _enum(5, k, 64)))
     return out
+
+
+def evaluate(case):
+    from ..structural import user_stack
+    with user_stack():
+        try:
+            return evaluate_inner(case)
+        except RecursionError as exc:
+            res = Result()
+            res.fail('%s:recursion-error' % ID, "RecursionError with 950 stack frames available "
+                     "(graph of %s nodes): %s" % (case.get('n', '?'), exc))
+            return res
